@@ -37,6 +37,7 @@ from snaxc.accelerators.streamers.streamers import (
     StreamerConfiguration,
     StreamerFlag,
     StreamerOpts,
+    StreamerSystemType,
     StreamerType,
 )
 from snaxc.util.memref_descriptor import LLVMMemrefDescriptor
@@ -172,6 +173,13 @@ class StreamerConfigurationAttr(Data[StreamerConfiguration]):
         # r[temp=n-n-n, spat=i-n], w[temp=r-n-n, spat=n-n]>
 
         with parser.in_angle_brackets():
+            # optional system type (absent: regular), e.g. <system=xdma, r[...], w[...]>
+            system_type = StreamerSystemType.Regular
+            if parser.parse_optional_keyword("system"):
+                parser.parse_punctuation("=")
+                system_type = parser.parse_str_enum(StreamerSystemType)
+                parser.parse_punctuation(",")
+
             streamers: Sequence[Streamer] = []
 
             while True:
@@ -210,7 +218,7 @@ class StreamerConfigurationAttr(Data[StreamerConfiguration]):
                 if not parser.parse_optional_punctuation(","):
                     break
 
-            return StreamerConfiguration(streamers)
+            return StreamerConfiguration(streamers, system_type)
 
     @classmethod
     def parse_streamer_opt(cls, parser: AttrParser) -> StreamerOpts:
@@ -233,7 +241,10 @@ class StreamerConfigurationAttr(Data[StreamerConfiguration]):
             + f"spat={'-'.join(str(d) for d in streamer.spatial_dims)}]"
             for streamer in self.data.streamers
         ]
-        printer.print_string(f"<{', '.join(streamer_strings)}>")
+        # the default system type is not printed
+        system_type = self.data.system_type()
+        prefix = "" if system_type == StreamerSystemType.Regular else f"system={system_type.value}, "
+        printer.print_string(f"<{prefix}{', '.join(streamer_strings)}>")
 
 
 Snax = Dialect(
